@@ -123,6 +123,22 @@ Fixpoint grid (v : val) : bool :=
   | _ => true
   end.
 
+(* no extension object in the value carries a body that is an empty struct (known finding extobj-empty-struct) *)
+Definition is_empty_body (b : val) : bool := match b with VPtr (Some (VStruct [])) => true | _ => false end.
+Fixpoint noempty (v : val) : bool :=
+  let lne := fix go (l : list val) : bool := match l with [] => true | x :: r => noempty x && go r end in
+  let one := fun (o : option val) => match o with None => true | Some x => noempty x end in
+  match v with
+  | VSlice (Some l) => lne l
+  | VPtr o => one o
+  | VStruct l => lne l
+  | VDiag _ _ _ _ _ _ _ i => one i
+  | VDataValue _ x _ _ _ _ _ => one x
+  | VVariant _ _ _ _ p => one p
+  | VExtObj _ _ b => match b with None => true | Some x => negb (is_empty_body x) && noempty x end
+  | _ => true
+  end.
+
 (* descriptors whose decoded values can be well-formed at all: integer and float widths of Go, slice elements of at
    least one byte (checked for every generated descriptor in Props) *)
 Fixpoint desc_ok (t : ty) : bool :=
